@@ -1239,4 +1239,32 @@ func c10(r *core.Run) {
 			o.Unres("no store to timingEntry.diff found")
 		}
 	})
+
+	r.Check("D3/K2/tombstone-first", "while scanning a slot a removed entry is neither kept for another revolution nor relocated: the circle decrement and the relocation push require !removed (a relocated tombstone re-registers its key in the index and hijacks a later set/remove)", func(o *core.O) {
+		if !need(o) || !o.Need(t.scan != nil, "the slot-scan function") {
+			return
+		}
+		f := t.scan
+		r.Fn(core.FuncName(f))
+		notRemoved := core.Not(core.BoolVal(func(v ssa.Value) bool { return core.IsFieldLoad(v, "timingEntry.removed") }))
+		isCircleStore := core.IsStoreToField("timingEntry.circle")
+		isPush := core.CallTo("(*container/list.List).PushBack", "(*container/list.List).PushFront")
+		n := 0
+		for _, g := range core.WithAnon(f) {
+			sites := core.Instrs(g, core.Or(isCircleStore, isPush))
+			n += len(sites)
+			if len(sites) == 0 {
+				continue
+			}
+			if core.EdgeCount(g, notRemoved) == 0 {
+				o.Fail(p.Pos(g.Pos()), "%s never tests the removed flag", core.FuncName(g))
+				continue
+			}
+			if w := core.Requires(g, core.Or(isCircleStore, isPush), notRemoved); w != nil {
+				o.Fail(p.InstrPos(w), "%s keeps or relocates an entry without having found it not removed", core.FuncName(g))
+			}
+		}
+		o.Site(n, core.FuncName(f))
+	})
+
 }
